@@ -392,6 +392,30 @@ def precheck(texts, unit_dir, max_rounds=4):
             return texts, excluded
         name, l0, l1, idx = max(cands, key=lambda sp: sp[1])     # innermost
         head = texts['base'][idx:idx + 400]
+        if '/*precheck: outside the verifier subset*/' in texts['base'][max(0, idx - 200):idx] and '/*precheck: body dropped*/' not in texts['base'][idx:idx + 4000]:
+            # already excluded, but its body does not even type-check against the stand-in types (rustc checks external bodies too):
+            # the body of the excluded function is dropped; its obligation stays undecided
+            first_line = texts['base'][idx:texts['base'].index('\n', idx)]
+            new = {}
+            ok = True
+            for k_, t in texts.items():
+                if t.count(first_line) == 1:
+                    pos = t.index(first_line)
+                elif t[idx:idx + len(first_line)] == first_line:
+                    pos = idx
+                else:
+                    ok = False
+                    break
+                try:
+                    i_, j_, e_ = rsx.find_item(t, r'^[ \t]*(?:pub(?:\([a-z]+\))?\s+)?(?:const\s+)?fn\s+%s\b' % re.escape(name), pos, 'fn')
+                except ExtractError:
+                    ok = False
+                    break
+                new[k_] = t[:j_] + '{ /*precheck: body dropped*/ unimplemented!() }' + t[e_:]
+            if not ok:
+                return texts, excluded
+            texts = new
+            continue
         if 'external_body' in texts['base'][max(0, idx - 200):idx] or re.match(r'\s*(?:pub\s+)?(?:open spec|closed spec|proof|spec) fn', head):
             return texts, excluded       # the error is in trusted/spec text: a real infrastructure problem
         first_line = texts['base'][idx:texts['base'].index('\n', idx)]
